@@ -163,7 +163,20 @@ def decode_ser_case(data):
             opts[k] = dec.pick(["legacy", "spec", "always"])
         else:
             opts[k] = bool(dec.below(2))
-    return {"kind": "serializer", "text": "".join(parts), "walker": dec.pick(["etree", "dom"]), "opts": opts, "encoding": dec.pick([None, "utf-8", "ascii", "koi8-r"])}
+    case = {"kind": "serializer", "text": "".join(parts), "walker": dec.pick(["etree", "dom"]), "opts": opts, "encoding": dec.pick([None, "utf-8", "ascii", "koi8-r"])}
+    if dec.below(3) == 0:
+        # the convenience entry point html5lib.serializer.serialize(tree, tree=..., **options), called before with OTHER options that
+        # have the same values (whatever the function keeps between calls must be keyed by the whole option set)
+        case["entry"] = "function"
+        base = {"quote_attr_values": dec.pick(["legacy", "spec", "always"])}
+        if dec.below(2):
+            base["quote_char"] = dec.pick(['"', "'"])
+        if dec.below(3) == 0:
+            base["omit_optional_tags"] = False
+        case["prior"] = [dict(base, **{dec.pick(["strip_whitespace", "escape_rcdata", "sanitize", "use_trailing_solidus", "minimize_boolean_attributes", "alphabetical_attributes"]): True})
+                         for _ in range(1 + dec.below(2))]
+        case["opts"] = dict(base, alphabetical_attributes=True)
+    return case
 
 
 XLINK = "http://www.w3.org/1999/xlink"
@@ -242,7 +255,16 @@ def check_serializer_case(case):
         warnings.simplefilter("ignore")
         ser = HTMLSerializer(**case["opts"])
         try:
-            out = ser.render(h5.walk(tree, case["walker"]), case.get("encoding"))
+            if case.get("entry") == "function":
+                from html5lib import serializer as S
+                for o in case.get("prior") or []:
+                    try:
+                        S.serialize(tree, tree=case["walker"], **o)
+                    except Exception:
+                        pass
+                out = S.serialize(tree, tree=case["walker"], encoding=case.get("encoding"), **case["opts"])
+            else:
+                out = ser.render(h5.walk(tree, case["walker"]), case.get("encoding"))
         except Exception as e:
             return Verdict("fail", "serializer raised %r for %s" % (e, short(case["text"], 160)), "serializer-exception:" + type(e).__name__, nontrivial=True)
     if case.get("encoding"):
